@@ -88,12 +88,12 @@ ScQuick ==
   Sc(ProtoFilesQ, "proto", "c", [x |-> 0]) \cup ProtoCxxQ
   \cup Sc(Styles(ConsumeSrcQ), "consume", "c", [x |-> 0]) \cup ConsumeCxxQ
   \cup Sc(WalkCSrc, "walk", "c", [x |-> 0]) \cup Sc(WalkCxx \cup WalkCxxGen, "walk", "cxx", [x |-> 0])
-  \cup PrepSrc(3) \cup StoreC(3) \cup StoreCxx(3) \cup StoreDeep(7) \cup StoreClone(5) \cup VStore(2) \cup VFileSc({1, 2, 3}, {1, 2})
+  \cup PrepSrc(3) \cup StoreC(3) \cup StoreCxx(3) \cup StoreDeep(7) \cup StoreClone(5) \cup VStore(2) \cup VFileSc({<<1>>, <<2>>, <<3>>, <<1, 1>>, <<1, 2>>, <<2, 1>>}, {1, 2})
   \cup CopySc("c", {0, 1, 3}) \cup CopySc("cxx", {0, 1, 3})
 ScThorough ==
   Sc(ProtoFilesQ \cup ProtoFilesT, "proto", "c", [x |-> 0]) \cup ProtoCxxQ \cup ProtoCxxT
   \cup Sc(Styles(ConsumeSrcQ \cup ConsumeSrcT), "consume", "c", [x |-> 0]) \cup ConsumeCxxQ \cup ConsumeCxxT
   \cup Sc(WalkCSrc \cup WalkRangeMore, "walk", "c", [x |-> 0]) \cup Sc(WalkCxx \cup WalkCxxGen, "walk", "cxx", [x |-> 0])
-  \cup PrepSrc(4) \cup StoreC(4) \cup StoreCxx(4) \cup StoreDeep(10) \cup StoreClone(6) \cup VStore(3) \cup VStore3(2) \cup VFileSc({1, 2, 3, 4}, {1, 2, 3})
+  \cup PrepSrc(4) \cup StoreC(4) \cup StoreCxx(4) \cup StoreDeep(10) \cup StoreClone(6) \cup VStore(3) \cup VStore3(2) \cup VFileSc({<<1>>, <<2>>, <<3>>, <<4>>, <<1, 1>>, <<1, 2>>, <<2, 1>>, <<1, 1, 1>>, <<2, 2>>, <<3, 1>>}, {1, 2, 3})
   \cup CopySc("c", {0, 1, 2, 3, 4}) \cup CopySc("cxx", {0, 1, 2, 3, 4})
 =============================================================================
